@@ -171,8 +171,40 @@ def rule_no_leak(ctx, facts, prefix="C07-R4"):
     ctx.ok(prefix, "no mem::forget / ManuallyDrop / process::exit / abort / leak among %d call sites of the crate" % n, "")
 
 
+class _OnlyPrefix:
+    """ctx proxy keeping only obligations whose key starts with one of the prefixes (and renaming the rule)"""
+    def __init__(self, ctx, rule, keys):
+        self.ctx, self.rule, self.keys = ctx, rule, keys
+        self.bin, self.lib, self.grammar, self.extra, self.tier, self.seed, self.prop = ctx.bin, ctx.lib, ctx.grammar, ctx.extra, ctx.tier, ctx.seed, ctx.prop
+
+    def _keep(self, key):
+        return any(key.startswith(k) for k in self.keys)
+
+    def check(self, cond, rule, key, what, where="", detail=None):
+        if self._keep(key):
+            return self.ctx.check(cond, self.rule, key, what, where, detail)
+        return cond
+
+    def bad(self, rule, key, msg, where="", detail=None):
+        if self._keep(key):
+            self.ctx.bad(self.rule, key, msg, where, detail)
+
+    def ok(self, *a, **k):
+        pass
+
+    def assume(self, *a):
+        pass
+
+    def note(self, *a):
+        pass
+
+
 def run(ctx):
     facts = ctx.bin
+    # "no other file in the project is affected": the lock file is a project file; it is rewritten in place, so a kill or a
+    # failing write leaves it truncated (same construct as C02-R5, reported here for this property's clause)
+    from . import c02 as _c02
+    _c02.rule_lock_atomic(_OnlyPrefix(ctx, "C07-R5", ("in-place|",)), facts, prefix="C07-R5")
     roles = rule_closed_set(ctx, facts)
     rule_complete_before_publish(ctx, facts)
     rule_no_retry(ctx, facts)
